@@ -736,7 +736,11 @@ static int load_touchstone1(ts_parser_state_t *tpsp)
 	 * The file contains noise parameters only: the result is an
 	 * empty matrix, not whatever the structure held before.
 	 */
-	if (vnadata_init(vdp, tpsp->tps_parameter_type, 0, 0, 0) == -1) {
+	int ports = (tpsp->tps_parameter_type == VPT_H ||
+		     tpsp->tps_parameter_type == VPT_G) ? 2 : 0;
+
+	if (vnadata_init(vdp, tpsp->tps_parameter_type,
+		    ports, ports, 0) == -1) {
 	    _vnadata_error(vdip, VNAERR_SYSTEM,
 		    "realloc: %s", strerror(errno));
 	    return -1;
